@@ -273,23 +273,24 @@ def _rebuild(e):
     return e
 
 
-def deep_rebuild(e):
-    """Structurally equal copy sharing no Expression/tuple object with *e*."""
+def deep_rebuild(e, leaf=None):
+    """Structurally equal copy sharing no Expression/tuple object with *e*; *leaf*, if given,
+    is applied to every non-container leaf value (e.g. to turn numpy scalars into Python ones)."""
     if isinstance(e, p.Expression) and normal.is_expr_dataclass(type(e)):
         import dataclasses
-        return type(e)(*[deep_rebuild(getattr(e, f.name)) for f in dataclasses.fields(e)])
+        return type(e)(*[deep_rebuild(getattr(e, f.name), leaf) for f in dataclasses.fields(e)])
     if isinstance(e, tuple):
-        return tuple(deep_rebuild(c) for c in e)
+        return tuple(deep_rebuild(c, leaf) for c in e)
     if isinstance(e, list):
-        return [deep_rebuild(c) for c in e]
+        return [deep_rebuild(c, leaf) for c in e]
     if isinstance(e, immutabledict):
-        return immutabledict({k: deep_rebuild(v) for k, v in e.items()})
+        return immutabledict({k: deep_rebuild(v, leaf) for k, v in e.items()})
     if isinstance(e, np.ndarray):
         out = np.empty(e.shape, dtype=object)
         for i in np.ndindex(e.shape):
-            out[i] = deep_rebuild(e[i])
+            out[i] = deep_rebuild(e[i], leaf)
         return out
-    return e
+    return leaf(e) if leaf is not None else e
 
 
 class AnyGen:
@@ -373,7 +374,8 @@ class AnyGen:
             parts = tuple(None if r.random() < 0.3 else g() for _ in range(n))
             e = p.Subscript(p.Variable("a"), p.Slice(parts))
         elif k == "look":
-            e = p.Lookup(g(), r.choice(["attr", "real"]))
+            # an attribute may be called like a variable of the tree (o.x next to x)
+            e = p.Lookup(g(), r.choice(["attr", "real", "attr", r.choice(self.names)]))
         elif k == "cse":
             e = p.CommonSubexpression(g())
         elif k == "cse2":
